@@ -22,7 +22,7 @@ macro_rules! define_ranged {
         smaller { $($smaller_name:ident $smaller_repr:ty),* },
         bigger { $($bigger_name:ident $bigger_repr:ty),* }
     ) => {
-        #[derive(Clone, Copy, Hash)]
+        #[derive(Clone, Copy)]
         pub(crate) struct $name<const MIN: i128, const MAX: i128> {
             /// The actual value of the integer.
             ///
@@ -2007,6 +2007,18 @@ macro_rules! define_ranged {
         }
 
         impl<const MIN: i128, const MAX: i128> Eq for $name<MIN, MAX> {}
+
+        // N.B. This must be consistent with `PartialEq`, which only looks at
+        // the value. In particular, the `min` and `max` fields (which only
+        // exist when debug assertions are enabled) must not be hashed, since
+        // equal integers can arrive at different `min`/`max` values.
+        impl<const MIN: i128, const MAX: i128> core::hash::Hash
+            for $name<MIN, MAX>
+        {
+            fn hash<H: core::hash::Hasher>(&self, state: &mut H) {
+                self.val.hash(state);
+            }
+        }
 
         impl<
             const MIN1: i128,
